@@ -33,7 +33,7 @@ def decode_statusword(sw):
 
 
 class Drive402:
-    def __init__(self, state, choose=None, extra_bits=0, leaves_quick_stop=False, supported=0x3EF):
+    def __init__(self, state, choose=None, extra_bits=0, leaves_quick_stop=False, supported=0x3EF, latency=0.0, clock=None):
         self.state = state
         self.trace = [state]
         self.cw = 0
@@ -47,6 +47,8 @@ class Drive402:
         self.mode_writes = []
         self.supported = supported
         self.sw_reads = 0
+        # a slow (still conformant) drive: a controlword takes effect `latency` seconds after it was received
+        self.latency, self.clock, self.pending = latency, clock, []
 
     def go(self, st):
         self.state = st
@@ -55,15 +57,25 @@ class Drive402:
     def sample_statusword(self):
         """The statusword as seen by one read / one TPDO; a pending automatic transition may fire first."""
         self.sw_reads += 1
+        while self.pending and self.pending[0][0] <= self.clock():
+            self._controlword(self.pending.pop(0)[1])
         if self.state in self.auto:
             if self.choose(2, f"auto:{self.state}") == 0:
                 self.go(self.auto[self.state])
         return SW_BITS[self.state] | self.extra
 
     def controlword(self, cw):
+        if self.latency:
+            self.cws.append(cw)
+            self.pending.append((self.clock() + self.latency, cw))
+            return
+        self._controlword(cw)
+
+    def _controlword(self, cw):
         prev = self.cw
         self.cw = cw
-        self.cws.append(cw)
+        if not self.latency:
+            self.cws.append(cw)
         st = self.state
         if st == FAULT:
             if cw & 0x80 and not prev & 0x80:
